@@ -4,3 +4,4 @@ open GoRedis
 #print axioms C04_framed
 #print axioms C04_line_reply_sanitised
 #print axioms C04_uninterpretable_request
+#print axioms C04_source_conn_loop_is_the_modelled_one
